@@ -3,6 +3,7 @@
 # Builds the check's workers from /repo + a source change (applied only during the build,
 # under the exclusive /repo build lock), runs the check from those binaries with output in a
 # scratch directory. Expected for a change that breaks the property: exit 1 + VIOLATION line.
+V="$(cd "$(dirname "$0")" && pwd)"   # the /verif tree these scripts belong to (also a snapshot of it)
 set -u
 PATCH="$(readlink -f "$1")"; ID="$2"; TIER="${3:-quick}"; SEED="${4:-1}"
 SCR=/var/tmp/verif-selftest/$$
@@ -13,11 +14,11 @@ mkdir -p "$SCR"
   cd /repo || exit 2
   if [ -n "$(git status --porcelain)" ]; then echo "selftest: /repo working tree is not clean"; exit 2; fi
   git apply "$PATCH" || { echo "selftest: patch does not apply"; exit 2; }
-  (cd /verif && VERIF_REPO_LOCKED=1 VERIF_BIN_DIR="$SCR/bin" ./check "$ID" --build-only); rc=$?
+  (cd "$V" && VERIF_REPO_LOCKED=1 VERIF_BIN_DIR="$SCR/bin" ./check "$ID" --build-only); rc=$?
   git checkout -q -- . ; git clean -fdq
   exit $rc
 ) 9>"$LOCK" || { rm -rf "$SCR"; echo "selftest: build failed"; exit 2; }
-cd /verif && VERIF_SKIP_BUILD=1 VERIF_BIN_DIR="$SCR/bin" VERIF_OUT_DIR="$SCR" VERIF_SEED="$SEED" ./check "$ID" "$TIER" > "$SCR/out" 2>&1
+cd "$V" && VERIF_SKIP_BUILD=1 VERIF_BIN_DIR="$SCR/bin" VERIF_OUT_DIR="$SCR" VERIF_SEED="$SEED" ./check "$ID" "$TIER" > "$SCR/out" 2>&1
 rc=$?
 grep -E "^VIOLATION|signature-tally|^C[0-9]+ tier|BUILD-FAILED|KNOWN-FINDING|BROKEN" "$SCR/out" | head -12
 rm -rf "$SCR"
